@@ -1,10 +1,10 @@
 (* Property C04 -- the lifted IL computes the documented result and flags for every operand value.
-   Statements only; proofs are in Proofs/AluProofs.v, ExecProofs.v, ExecProofs2.v, ExecMemProofs.v, ExecAluMemProofs.v, ExecLoopProofs.v, ExecRmwProofs.v, ExecRmwProofs2.v, ExecMvMemProofs.v and ExecExProofs.v.
+   Statements only; proofs are in Proofs/AluProofs.v, ExecProofs.v, ExecProofs2.v, ExecMemProofs.v, ExecAluMemProofs.v, ExecLoopProofs.v, ExecRmwProofs.v, ExecRmwProofs2.v, ExecMvMemProofs.v, ExecExProofs.v, ExecStackProofs.v and ExecStackProofs2.v.
    Model: Model/IL.v (evaluator) + Model/Lift.v (lifter), tied to the Python code by IL-text and execution
    correspondence on every run; documented semantics: Model/Spec.v (README instruction tables). *)
 From Coq Require Import ZArith NArith List Bool.
 From BE Require Import Model.TableTypes Gen.Tables Model.Regs Model.Decode Model.IL Model.Lift Model.Static Model.Spec
-  Model.Emu Proofs.AluProofs Proofs.ExecProofs Proofs.AccessProofs Proofs.ExecProofs2 Proofs.ExecProofs3 Proofs.ExecMemProofs Proofs.ExecPtrProofs Proofs.ExecStackProofs Proofs.ExecAluDefs Proofs.ExecAluMemProofs Proofs.ExecLoopProofs Proofs.ExecRmwDefs Proofs.ExecRmwProofs Proofs.ExecRmwProofs2 Proofs.ExecMvMemProofs Proofs.ExecExProofs.
+  Model.Emu Proofs.AluProofs Proofs.ExecProofs Proofs.AccessProofs Proofs.ExecProofs2 Proofs.ExecProofs3 Proofs.ExecMemProofs Proofs.ExecPtrProofs Proofs.ExecStackProofs Proofs.ExecStackProofs2 Proofs.ExecAluDefs Proofs.ExecAluMemProofs Proofs.ExecLoopProofs Proofs.ExecRmwDefs Proofs.ExecRmwProofs Proofs.ExecRmwProofs2 Proofs.ExecMvMemProofs Proofs.ExecExProofs.
 Import ListNotations.
 Open Scope Z_scope.
 
@@ -249,6 +249,37 @@ Theorem C04_pushu_popu_A_exact :
   ((d_cls (entry_of 40), d_ops (entry_of 40)) = (I_PUSHU, [PReg RA 1]) /\ (d_cls (entry_of 56), d_ops (entry_of 56)) = (I_POPU, [PReg RA 1])).
 Proof. split; [exact pushu_A|]. split; [exact popu_A|]. exact stack_opcodes_check. Qed.
 Print Assumptions C04_pushu_popu_A_exact.
+
+(* the same for the 2- and 3-byte registers: PUSHU BA / I / X / Y store the register little-endian at U-w (w = 2, 2, 3, 3; needs
+   U >= w) and leave U-w in U; POPU BA / I / X / Y load the w bytes at U (little-endian) into the register and leave U+w in U; every
+   other register, flag and byte is untouched, for every state *)
+Theorem C04_pushu_popu_wide_exact :
+  stack_is_spec (mk_instr 42 [OReg RBA 2] 1) 42 (fun s => 2 <= getr s gU) /\
+  stack_is_spec (mk_instr 43 [OReg RI 2] 1) 43 (fun s => 2 <= getr s gU) /\
+  stack_is_spec (mk_instr 44 [OReg RX 3] 1) 44 (fun s => 3 <= getr s gU) /\
+  stack_is_spec (mk_instr 45 [OReg RY 3] 1) 45 (fun s => 3 <= getr s gU) /\
+  stack_is_spec (mk_instr 58 [OReg RBA 2] 1) 58 (fun _ => True) /\
+  stack_is_spec (mk_instr 59 [OReg RI 2] 1) 59 (fun _ => True) /\
+  stack_is_spec (mk_instr 60 [OReg RX 3] 1) 60 (fun _ => True) /\
+  stack_is_spec (mk_instr 61 [OReg RY 3] 1) 61 (fun _ => True) /\
+  map (fun o => (d_cls (entry_of o), d_ops (entry_of o))) [42; 43; 44; 45; 58; 59; 60; 61]%N =
+  map (fun r => (I_PUSHU, [r])) [PReg RBA 2; PReg RI 2; PReg RX 3; PReg RY 3] ++
+  map (fun r => (I_POPU, [r])) [PReg RBA 2; PReg RI 2; PReg RX 3; PReg RY 3].
+Proof.
+  split; [exact pushu_BA|]. split; [exact pushu_I|]. split; [exact pushu_X|]. split; [exact pushu_Y|].
+  split; [exact popu_BA|]. split; [exact popu_I|]. split; [exact popu_X|]. split; [exact popu_Y|]. exact stack_opcodes_check2.
+Qed.
+Print Assumptions C04_pushu_popu_wide_exact.
+
+(* non-vacuity of the stack theorems: a concrete PUSHU X then POPU Y moves X into Y through memory *)
+Example C04_stack_example :
+  match exec_decoded (mk_instr 44 [OReg RX 3] 1) 44 4096 (mk_state 0x1290 7 0x12345 2 0x800 4 2 (repeat 0%N 14) [] 0) with
+  | XOk s1 => match exec_decoded (mk_instr 61 [OReg RY 3] 1) 61 4097 s1 with
+              | XOk s2 => map (py_get (rg s2)) [gX; gY; gU] = [0x12345; 0x12345; 0x800]%N
+              | _ => False end
+  | _ => False
+  end.
+Proof. vm_compute. reflexivity. Qed.
 
 Theorem C04_more_opcodes_are_the_tables :
   (forallb (fun oc => match d_cls (entry_of (fst oc)), snd oc with
